@@ -1893,6 +1893,21 @@ def _value_classes(P: Program, fi: FunctionInfo, e: ast.AST, depth=3) -> List[Cl
         return [r]
     if depth == 0:
         return []
+    # a class made on the spot from one base, `type(name, (B,), {..})`: whatever B may be (it is a subclass of it, made by this call)
+    if isinstance(e, ast.Call) and isinstance(e.func, ast.Name) and e.func.id == 'type' and len(e.args) == 3 \
+            and isinstance(e.args[1], ast.Tuple) and len(e.args[1].elts) == 1:
+        return _value_classes(P, fi, e.args[1].elts[0], depth)
+    # a local that was bound, on its different paths, to expressions that all denote classes
+    if isinstance(e, ast.Name) and e.id not in fi.params:
+        srcs = assigned_from(fn_of(fi), e.id)
+        if srcs and not any(isinstance(x, ast.Name) and x.id == e.id for x in srcs):
+            out = []
+            for x in srcs:
+                got = _value_classes(P, fi, x, depth - 1)
+                if not got:
+                    return []
+                out += got
+            return out
     if isinstance(e, ast.Attribute) and isinstance(e.value, ast.Name) and e.value.id == 'self' and fi.cls is not None:
         out = []
         init = fi.cls.methods.get('__init__')
@@ -2783,10 +2798,40 @@ def r12_sinks(ctx):
     r1 = ctx.rule('R12.1', 'YAML sinks: the string variant and both file/stream branches call yaml.dump with the same options',
                   floor=2)
     sites = by_factory.get('dumps_function', []) + by_factory.get('dump_function', [])
+    jsites_ = by_factory.get('dumps_json_function', []) + by_factory.get('dump_json_function', [])
+
+    def passed_through(fi, kw, base):
+        """options beyond the base set that a site passes straight from a parameter of the same name (`sort_keys=sort_keys`):
+        {name: default text} - None if some extra option is anything else"""
+        out = {}
+        a_ = fi.node.args
+        dflt = {}
+        pos = a_.posonlyargs + a_.args
+        for p_, d_ in zip(pos[len(pos) - len(a_.defaults):], a_.defaults):
+            dflt[p_.arg] = norm(d_)
+        for p_, d_ in zip(a_.kwonlyargs, a_.kw_defaults):
+            if d_ is not None:
+                dflt[p_.arg] = norm(d_)
+        for k_, v_ in kw.items():
+            if k_ in base:
+                continue
+            if k_ is None or v_ != k_ or k_ not in dflt:
+                return None
+            out[k_] = dflt[k_]
+        return out
+    # an option that one sink takes, every sink takes - with the same default (a new option is fine, a sink that forgets it is not)
+    extras_all = [passed_through(fi, kwset(c, fi), set()) for fi, c in sites] + \
+        [passed_through(fi, kwset(c, fi), {'indent', 'allow_unicode'}) for fi, c in jsites_]
+    common = extras_all[0] if extras_all and all(e is not None and e == extras_all[0] for e in extras_all) else None
     for fi, c in sites:
-        r1.check(kwset(c) == {} and bool(c.args) and len(fi.params) > 1 and norm(c.args[0]) == fi.params[1], '%s %s: yaml.dump(obj%s) with no further options'
-                 % (fi.qual, _site_tag(fi, c), ', sink' if len(c.args) > 1 else ''), '%s:yaml.dump:options:%s' % (fi.key, _site_tag(fi, c)),
-                 fi.loc(c), 'YAML dump site passes %s: the text differs from what the other sinks produce' % kwset(c))
+        kw = kwset(c, fi)
+        ok = (kw == {} or (common is not None and kw == {k_: k_ for k_ in common})) and bool(c.args) and len(fi.params) > 1 \
+            and norm(c.args[0]) == fi.params[1]
+        r1.check(ok, '%s %s: yaml.dump(obj%s) with %s' % (fi.qual, _site_tag(fi, c), ', sink' if len(c.args) > 1 else '',
+                                                       'no further options' if not kw else 'the options every sink passes on: %s' % sorted(kw)),
+                 '%s:yaml.dump:options:%s' % (fi.key, _site_tag(fi, c)),
+                 fi.loc(c), 'YAML dump site passes %s%s: the text differs from what the other sinks produce'
+                 % (kw, '' if common is not None or not kw else ' (the sinks do not all pass the same options with the same defaults: %s)' % extras_all))
     r1.done()
 
     r2 = ctx.rule('R12.2', 'JSON sinks: all three yaml.dump sites pass indent=<param indent> and allow_unicode=not <param '
@@ -2794,7 +2839,10 @@ def r12_sinks(ctx):
     jsites = by_factory.get('dumps_json_function', []) + by_factory.get('dump_json_function', [])
     for fi, c in jsites:
         kw = kwset(c, fi)
-        ok = kw == {'indent': 'indent', 'allow_unicode': 'not ensure_ascii'} and 'indent' in fi.params and 'ensure_ascii' in fi.params
+        want_kw = {'indent': 'indent', 'allow_unicode': 'not ensure_ascii'}
+        if common:
+            want_kw.update({k_: k_ for k_ in common})
+        ok = kw == want_kw and 'indent' in fi.params and 'ensure_ascii' in fi.params
         r2.check(ok, '%s %s: indent=indent, allow_unicode=not ensure_ascii' % (fi.qual, _site_tag(fi, c)),
                  '%s:yaml.dump:json-options:%s' % (fi.key, _site_tag(fi, c)), fi.loc(c),
                  'JSON dump site passes %s instead of indent=indent, allow_unicode=not ensure_ascii: this sink ignores or '
